@@ -22,6 +22,11 @@ theorem wf_gen {c : Nat} {x : Ty} (h : (Ty.gen c x).wf H = true) :
     c ∈ H.classes ∧ H.generic c = true ∧ x.wf H = true := by
   simp [Ty.wf] at h; exact ⟨h.1.1, h.1.2, h.2⟩
 
+theorem wf_union {xs : List Ty} (h : (Ty.union xs).wf H = true) :
+    wfL H xs = true ∧ (∀ x ∈ xs, x.isUnion = false) ∧ xs ≠ [] := by
+  simp [Ty.wf] at h
+  exact ⟨h.1.1, h.1.2, h.2⟩
+
 theorem wfL_mem {xs : List Ty} (h : wfL H xs = true) : ∀ x ∈ xs, x.wf H = true := by
   induction xs with
   | nil => intro x hx; cases hx
@@ -171,8 +176,12 @@ theorem S_and_left (p1 p2 : Bool) {a c : Ty} (h : S H p2 a c = true) : S H (p1 &
 theorem S_and_right (p1 p2 : Bool) {a c : Ty} (h : S H p1 a c = true) : S H (p1 && p2) a c = true := by
   rw [Bool.and_comm]; exact S_and_left p2 p1 h
 
-def Cond (H : Hier) (p1 p2 : Bool) (a b c : Ty) : Prop :=
-  (p1 = true ∧ p2 = true) ∨ (a.noFunc H = true ∧ b.noFunc H = true ∧ c.noFunc H = true)
+/-- side condition of transitivity `a ≤[p1] b ≤[p2] c`: the only failing pattern is
+    `X ≤ callable ≤ builtins.function` with a non-proper first step, so `builtins.function` must not occur in
+    `c` unless the first step is proper — and, because contravariant positions swap the roles, not in `a`
+    unless the second step is proper.  Nothing is required of `b`. -/
+def Cond (H : Hier) (p1 p2 : Bool) (a _b c : Ty) : Prop :=
+  (p1 = true ∨ c.noFunc H = true) ∧ (p2 = true ∨ a.noFunc H = true)
 
 def TransAt (H : Hier) (n : Nat) : Prop :=
   ∀ (p1 p2 : Bool) (a b c : Ty), a.size + b.size + c.size ≤ n → Cond H p1 p2 a b c →
@@ -229,17 +238,14 @@ theorem varCheck_trans {p1 p2 : Bool} {x y z : Ty} {v1 v2 : Variance}
     · exact T12 h1 h2
     · exact T21 h2 h1
 
-theorem Cond_symm {p1 p2 : Bool} {a b c : Ty} (h : Cond H p1 p2 a b c) : Cond H p2 p1 c b a := by
-  rcases h with h | h
-  · exact Or.inl ⟨h.2, h.1⟩
-  · exact Or.inr ⟨h.2.2, h.2.1, h.1⟩
+theorem Cond_symm {p1 p2 : Bool} {a b c : Ty} (h : Cond H p1 p2 a b c) : Cond H p2 p1 c b a :=
+  ⟨h.2, h.1⟩
 
 theorem Cond_sub {p1 p2 : Bool} {a b c x y z : Ty} (h : Cond H p1 p2 a b c)
     (hx : a.noFunc H = true → x.noFunc H = true) (hy : b.noFunc H = true → y.noFunc H = true)
     (hz : c.noFunc H = true → z.noFunc H = true) : Cond H p1 p2 x y z := by
-  rcases h with h | h
-  · exact Or.inl h
-  · exact Or.inr ⟨hx h.1, hy h.2.1, hz h.2.2⟩
+  have _ := hy
+  exact ⟨h.1.imp id hz, h.2.imp id hx⟩
 
 /-- transitivity for three instances -/
 theorem trans_inst (hok : H.Ok) {n : Nat} (IH : TransAt H n) {p1 p2 : Bool} {a b c : Ty}
@@ -594,8 +600,8 @@ theorem trans_typeType (hok : H.Ok) {n : Nat} (IH : TransAt H n) {p1 p2 : Bool} 
     | true => simp at h1
     | false =>
       simp only [Bool.false_eq_true, if_false] at h1
-      have hnf : (Ty.typeType x).noFunc H = true ∧ (Ty.callable bs r).noFunc H = true ∧ c.noFunc H = true := by
-        rcases hcond with h | h
+      have hnf : c.noFunc H = true := by
+        rcases hcond.1 with h | h
         · simp at h
         · exact h
       rw [S_atom H _ _ _ rfl hcu, beq_false_of_ne hbc] at h2
@@ -631,7 +637,7 @@ theorem trans_all (hok : H.Ok) : ∀ n, TransAt H n := by
       rw [List.all_eq_true] at h1 ⊢
       intro i hi
       have := size_le_sizeL hi
-      have hwi : i.wf H = true := wfL_mem (by simp [Ty.wf] at hwa; exact hwa.1) i hi
+      have hwi : i.wf H = true := wfL_mem (wf_union hwa).1 i hi
       exact IH p1 p2 i b c (by simp [Ty.size] at hn; omega)
         (Cond_sub hcond (fun h => noFuncL_mem (by simpa [Ty.noFunc] using h) i hi) id id) hwi hwb hwc (h1 i hi) h2
     have hau : a.isUnion = false := by simpa using hau
@@ -642,7 +648,7 @@ theorem trans_all (hok : H.Ok) : ∀ n, TransAt H n := by
       obtain ⟨j, hj, h1⟩ := h1
       rw [S_union_left, List.all_eq_true] at h2
       have := size_le_sizeL hj
-      have hwj : j.wf H = true := wfL_mem (by simp [Ty.wf] at hwb; exact hwb.1) j hj
+      have hwj : j.wf H = true := wfL_mem (wf_union hwb).1 j hj
       exact IH p1 p2 a j c (by simp [Ty.size] at hn; omega)
         (Cond_sub hcond id (fun h => noFuncL_mem (by simpa [Ty.noFunc] using h) j hj) id) hwa hwj hwc h1 (h2 j hj)
     have hbu : b.isUnion = false := by simpa using hbu
@@ -653,7 +659,7 @@ theorem trans_all (hok : H.Ok) : ∀ n, TransAt H n := by
       obtain ⟨k, hk, h2⟩ := h2
       rw [S_union_right H _ _ _ hau, List.any_eq_true]
       have := size_le_sizeL hk
-      have hwk : k.wf H = true := wfL_mem (by simp [Ty.wf] at hwc; exact hwc.1) k hk
+      have hwk : k.wf H = true := wfL_mem (wf_union hwc).1 k hk
       exact ⟨k, hk, IH p1 p2 a b k (by simp [Ty.size] at hn; omega)
         (Cond_sub hcond id id (fun h => noFuncL_mem (by simpa [Ty.noFunc] using h) k hk)) hwa hwb hwk h1 h2⟩
     have hcu : c.isUnion = false := by simpa using hcu
